@@ -23,12 +23,30 @@ def fixed_name(slot):
     return FIXED[slot_kind(slot)] + slot[3:]
 
 
-def make_names(slots, free_kinds, length=2, lengths=None, prefix="n"):
+def make_names(slots, free_kinds, length=2, lengths=None, prefix="n", free_slots=None):
     n = Names(default_len=length, first=BODY_FIRST, rest=BODY_REST, lengths=lengths, prefix=prefix)
     for s in slots:
-        if slot_kind(s) not in free_kinds:
+        if slot_kind(s) not in free_kinds or (free_slots is not None and s not in free_slots):
             n.set(s, fixed_name(s))
     return n
+
+
+def choose_free(slots, free_kinds, budget, priority, seed_text):
+    """which slots are free in this harness instance: all slots of the priority kinds first, then a seeded sample of
+    the other free kinds up to the budget (the rest are fixed to constants that cannot clash)"""
+    import random
+
+    cand = [s for s in slots if slot_kind(s) in free_kinds]
+    if budget is None or len(cand) <= budget:
+        return set(cand)
+    first = [s for s in cand if slot_kind(s) in priority]
+    rest = [s for s in cand if slot_kind(s) not in priority]
+    rnd = random.Random(seed_text)
+    rnd.shuffle(rest)
+    if len(first) > budget:
+        rnd.shuffle(first)
+        return set(first[:budget])
+    return set(first + rest[:budget - len(first)])
 
 
 # ---- AST walking --------------------------------------------------------------------------------
@@ -168,6 +186,86 @@ def variant(st, mode):
     return st
 
 
+def reentrant_slots(st):
+    """slots inside scalar subqueries nested in CASE / function calls: the library re-enters LineageRunner on the
+    TEXT of such a subquery (sqlparse), which needs concrete text - these slots stay concrete (structure still
+    checked, names there not solved)"""
+    out = set()
+
+    def ex(e, inside):
+        if isinstance(e, gen.Scalar):
+            if inside:
+                out.update(m.lower() for m in PLACEHOLDER.findall(gen.Renderer().query(e.q)))
+        elif isinstance(e, gen.Func):
+            for a in e.args:
+                ex(a, True)
+        elif isinstance(e, gen.Case):
+            for c, r in e.whens:
+                ex(c, True), ex(r, True)
+            if e.other is not None:
+                ex(e.other, True)
+        elif isinstance(e, gen.Cast):
+            ex(e.e, True)
+        elif isinstance(e, gen.Arith):
+            ex(e.l, True), ex(e.r, True)
+
+    for q in stmt_queries(st):
+        for sel in all_sels(q):
+            for it in sel.items:
+                ex(it.e, False)
+    return out
+
+
+def all_sels(q):
+    if isinstance(q, gen.Sel):
+        yield q
+        for j in q.frm:
+            if isinstance(j.item, gen.Der):
+                yield from all_sels(j.item.q)
+        for sub in ([q.where_in[1]] if q.where_in else []) + [q.where_exists, q.having_scalar]:
+            if sub is not None:
+                yield from all_sels(sub)
+    elif isinstance(q, gen.SetOp):
+        for b in q.branches:
+            yield from all_sels(b)
+    elif isinstance(q, gen.With):
+        for _, b in q.ctes:
+            yield from all_sels(b)
+        yield from all_sels(q.body)
+
+
+def scopes_of(st):
+    """-> list of FROM scopes, each a list of FROM items (Tab | Der)"""
+    sc = {}
+    for q in stmt_queries(st):
+        for s, j in from_items(q):
+            sc.setdefault(id(s), []).append(j.item)
+    return list(sc.values())
+
+
+def cross_scope_alias_region(st, val, tid):
+    """region of the recorded finding: an alias declared in one FROM scope equals the name (explicit alias, else bare
+    table name) under which a base table of THAT scope is referenced again in ANOTHER scope of the statement"""
+    scopes = scopes_of(st)
+    for i, sc in enumerate(scopes):
+        for r1 in sc:
+            if not r1.alias:
+                continue
+            a = val(r1.alias)
+            for t in sc:
+                if t is r1 or not isinstance(t, gen.Tab):
+                    continue
+                for k, other in enumerate(scopes):
+                    if k == i:
+                        continue
+                    for t2 in other:
+                        if isinstance(t2, gen.Tab) and bool(tid(t2) == tid(t)):
+                            exposed = val(t2.alias) if t2.alias else val(t2.name)
+                            if bool(exposed == a):
+                                return True
+    return False
+
+
 class StmtOb(TemplateObligation):
     """base: one corpus statement under one dialect"""
 
@@ -185,7 +283,8 @@ class StmtOb(TemplateObligation):
                 self.slots.append(m.lower())
 
     def names(self, prefix="n"):
-        return make_names(self.slots, self.free_kinds, self.length, prefix=prefix)
+        free = set(self.slots) - reentrant_slots(self.st)
+        return make_names(self.slots, self.free_kinds, self.length, prefix=prefix, free_slots=free)
 
     def val(self, names):
         return lambda slot: spec_norm(names[slot], self.quotes.get(slot, "none"))
